@@ -105,6 +105,18 @@ CHECKS = {
         BASE_NOTE + 'No theorem covers the compiler internals: the tie is the executed behaviour on the generated topologies.',
         'DESIGN.md section 5 C01',
     ),
+    'C02': (
+        'Rocq model of the reference table semantics and of the pyfunc transcoder (refutations by vm_compute, fuel-irrelevance proof) + differential execution on all backends',
+        'PARTIAL. Model/C02.v holds the reference semantics of a symbol table and a faithful executable model of '
+        'pyfunc.Expression (_order, _build, provider deques, Push/Pop evaluation over two calls). Proved: the reference value of an '
+        'instruction is a function of the table alone. Refuted with witnesses (known findings): pyfunc = reference fails for fan-out '
+        'at the head (construction crash) and for a shorter branch evaluated first (pop before push). Every generated table is run '
+        'on the reference interpreter, on the real pyfunc expression twice (the model must predict value-or-crash exactly) and on '
+        'dask synchronous/threads (+processes in the thorough tier), incl. sibling actors whose builders differ only in a lossy-repr '
+        'value; any disagreement between backends other than the two listed findings is a violation.',
+        BASE_NOTE + 'dask scheduling, tokenisation and pickling are runtime behaviour: correspondence only.',
+        'DESIGN.md section 5 C02',
+    ),
 }
 NOT_YET = 'model and theorems not built yet in this round (planned, see DESIGN.md section 5/9)'
 
